@@ -11,6 +11,67 @@ open AHP AHP.Gen AHP.Conv AHP.Gen.Code
 theorem excOf_TypeError : excOf "TypeError" = .typeError := by decide
 theorem excOf_ValueError : excOf "ValueError" = .valueError := by decide
 
+/-! ### association lists -/
+
+theorem lookup_assocSet_eq {α : Type} (l : List (String × α)) (x : String) (v : α) :
+    (assocSet l x v).lookup x = some v := by
+  induction l with
+  | nil => simp [assocSet, List.lookup]
+  | cons p r ih =>
+    obtain ⟨y, w⟩ := p
+    by_cases h : y = x
+    · simp [assocSet, h, List.lookup]
+    · have h' : (x == y) = false := by simpa using fun e => h e.symm
+      simp [assocSet, h, List.lookup, h', ih]
+
+theorem lookup_assocSet_ne {α : Type} (l : List (String × α)) (x z : String) (v : α) (hz : z ≠ x) :
+    (assocSet l x v).lookup z = l.lookup z := by
+  induction l with
+  | nil =>
+    have h' : (z == x) = false := by simpa using hz
+    simp [assocSet, List.lookup, h']
+  | cons p r ih =>
+    obtain ⟨y, w⟩ := p
+    by_cases h : y = x
+    · subst h
+      have h' : (z == y) = false := by simpa using hz
+      simp [assocSet, List.lookup, h']
+    · simp only [assocSet, h, if_false, List.lookup]
+      cases (z == y) <;> simp [ih]
+
+theorem assocSet_assocSet {α : Type} (l : List (String × α)) (x : String) (v w : α) :
+    assocSet (assocSet l x v) x w = assocSet l x w := by
+  induction l with
+  | nil => simp [assocSet]
+  | cons p r ih =>
+    obtain ⟨y, u⟩ := p
+    by_cases h : y = x
+    · simp [assocSet, h]
+    · simp [assocSet, h, ih]
+
+theorem assocSet_self {α : Type} (l : List (String × α)) (x : String) (v : α) (h : l.lookup x = some v) :
+    assocSet l x v = l := by
+  induction l with
+  | nil => simp [List.lookup] at h
+  | cons p r ih =>
+    obtain ⟨y, u⟩ := p
+    by_cases hy : y = x
+    · subst hy
+      simp [List.lookup] at h
+      simp [assocSet, h]
+    · have h' : (x == y) = false := by simpa using fun e => hy e.symm
+      simp only [List.lookup, h'] at h
+      simp [assocSet, hy, ih h]
+
+/-- The equations of `execS` for the straight-line statements (not the loops: those are rewritten as a whole). -/
+macro "py_stmts" : tactic => `(tactic| simp only [execS.eq_1, execS.eq_2, execS.eq_3, execS.eq_4, execS.eq_5, execS.eq_6,
+  execS.eq_7, execS.eq_10, execS.eq_11, execS.eq_12, execS.eq_13, execS.eq_14, execS.eq_15, execL, execH])
+
+/-- `simp` with the equations of the straight-line statements and further facts (the loops stay folded). -/
+macro "py_straight" "[" ts:Lean.Parser.Tactic.simpLemma,* "]" : tactic => `(tactic| simp [$ts,*, execS.eq_1, execS.eq_2,
+  execS.eq_3, execS.eq_4, execS.eq_5, execS.eq_6, execS.eq_7, execS.eq_10, execS.eq_11, execS.eq_12, execS.eq_13, execS.eq_14,
+  execS.eq_15, execL, execH, eval, evalList, List.lookup, Val.truthy, truthy, Lit.toPy, resultOf])
+
 /-! ### the functions of conversions.py, by name, each in the context of the functions defined before it -/
 
 @[simp] theorem name_1 : convertToIntOrNegativeOneIfUnset_ast.name = "convertToIntOrNegativeOneIfUnset" := rfl
@@ -77,11 +138,13 @@ theorem cxAt_handleInvalid_7 : (cxAt parseInt 7).funs "_handleInvalid" = some (r
 def handleInvalidV : Val → Except PyErr Val
   | .excInst n => .error (excOf n)
   | .excType n => .error (excOf n)
+  | .caught e => .error e
   | v => .ok v
 
 theorem handleInvalid_run (x : Val) : runKw (cxAt parseInt 4) _handleInvalid_ast [x] [] = handleInvalidV x := by
   cases x <;> simp [_handleInvalid_ast, runKw, bindArgs, execL, execS, execH, eval, evalList, cxAt_builtin, builtin, getAttr,
-    pyIsSubclass, Val.truthy, truthy, catches, errIsA, excOf_TypeError, callValue, raiseOf, handleInvalidV, Lit.toPy, List.lookup]
+    pyIsSubclass, Val.truthy, truthy, catches, errIsA, excOf_TypeError, callValue, raiseOf, handleInvalidV, Lit.toPy, List.lookup,
+    assocSet, aliasOK, Val.mutable, resultOf]
 
 theorem handleInvalidV_ofInv (inv : Inv) : handleInvalidV (ofInv inv) = liftPy (handleInvalid inv) := by
   cases inv <;> rfl
@@ -224,13 +287,15 @@ macro "py_eval" : tactic => `(tactic| simp [
   Val.unique, pyEqV.eq_1, pyEqV.eq_2, pyEqV.eq_3, pyEqV.eq_4, pyEqV.eq_5, pyEqV.eq_6, pyEqV.eq_7, pyEqV.eq_8, pyEqV.eq_9,
   pyEqV_none_str, pyEqV_int_str, pyEqV_bool_str, pyEqV_tokens_str, pyEqV_ancestor_str, pyEqV_opaque_str, pyEqV_str_none,
   pyEqV_int_none, pyEqV_bool_none, pyEqV_tokens_none, pyEqV_ancestor_none, pyEqV_opaque_none, Lit.toPy, Val.truthy, truthy, builtin, catches, errIsA, excOf_TypeError, excOf_ValueError, callMethod, hasLower,
-  List.lookup, cxAt_builtin, cxAt_handleInvalid_5, cxAt_handleInvalid_6, cxAt_handleInvalid_7, handleInvalid_run])
+  List.lookup, cxAt_builtin, cxAt_handleInvalid_5, cxAt_handleInvalid_6, cxAt_handleInvalid_7, handleInvalid_run,
+  assocSet, aliasOK, Val.mutable, resultOf])
 /-- `py_eval` with further facts (case hypotheses, the hand model's definitions). -/
 macro "py_eval" "[" ts:Lean.Parser.Tactic.simpLemma,* "]" : tactic => `(tactic| simp [$ts,*,
   bindArgs, execL, execS, execH, eval, evalList, toTuple, pyCompare, compareB, bnot, pyIn_py_tuple, pyIn_ofMembers, pyEq, pyIs, pyOrd, numOf, isText,
   Val.unique, pyEqV.eq_1, pyEqV.eq_2, pyEqV.eq_3, pyEqV.eq_4, pyEqV.eq_5, pyEqV.eq_6, pyEqV.eq_7, pyEqV.eq_8, pyEqV.eq_9,
   pyEqV_none_str, pyEqV_int_str, pyEqV_bool_str, pyEqV_tokens_str, pyEqV_ancestor_str, pyEqV_opaque_str, pyEqV_str_none,
   pyEqV_int_none, pyEqV_bool_none, pyEqV_tokens_none, pyEqV_ancestor_none, pyEqV_opaque_none, Lit.toPy, Val.truthy, truthy, builtin, catches, errIsA, excOf_TypeError, excOf_ValueError, callMethod, hasLower,
-  List.lookup, cxAt_builtin, cxAt_handleInvalid_5, cxAt_handleInvalid_6, cxAt_handleInvalid_7, handleInvalid_run])
+  List.lookup, cxAt_builtin, cxAt_handleInvalid_5, cxAt_handleInvalid_6, cxAt_handleInvalid_7, handleInvalid_run,
+  assocSet, aliasOK, Val.mutable, resultOf])
 
 end AHP.PyAst
